@@ -856,6 +856,37 @@ AHetIntLogCondY(i, j, s) ==
                           [val |-> MkSeq(R, LAMBDA r : IF c.cls = "HetStep" THEN StepIntLogCondY(c, p, r, QV(qY[r]), c.sh)
                                                         ELSE ZeroWIntLogCondY(c, p, r, QV(qY[r])))]))
 
+\* k_func(p_x, W_u, omega): the log-determinant ingredient of the lower bound at a GIVEN expansion point (C17, clause 2)
+OMEGAS == << Q(1, 2), Q(5, 2) >>
+AHetK(i, j, u, oi) ==
+    LET c == heap[i] p == heap[j] T == Truth(p, 1)
+        mh == FAdd(Dot(HW(c, u), T.mu), HW0(c, u))
+        s2 == Quad(HW(c, u), T.Sig, HW(c, u))
+        om == OMEGAS[oi]
+    IN /\ c.cls \in {"HetExp", "HetCosh", "HetRelu"} /\ ~c.zw
+       /\ IsPdf(p) /\ NumD(p) = HDx(c) /\ NumR(p) = 1 /\ u \in 1..HDk(c)
+       /\ Emit(heap, Step("HetK", [i |-> i, j |-> j, u |-> u, omega |-> om], NoObj, 0, NoObj, 0, NoObj,
+                          [val |-> <<HetK(c.cls, mh, s2, c.sh[u], QS(om))>>]))
+
+\* the heteroscedastic part of the quadratic term at a GIVEN expansion point (rectified-linear link, square A)
+AHetLBI(i, j, u, oi, s) ==
+    LET c == heap[i] p == heap[j] om == OMEGAS[oi]
+        qY == Pick(PointMenu(HDy(c)), 1, s)
+    IN /\ c.cls = "HetRelu" /\ IsPdf(p) /\ NumD(p) = HDx(c) /\ NumR(p) = 1 /\ HDa(c) = HDy(c) /\ u \in 1..HDk(c)
+       /\ Emit(heap, Step("HetLBI", [i |-> i, j |-> j, u |-> u, omega |-> om, y |-> qY], NoObj, 0, NoObj, 0, NoObj,
+                          [val |-> <<ReluLBI(c, p, u, QV(qY[1]), c.sh, QS(om))>>]))
+
+\* the shipped value is the stated combination of the ingredients at the code's own expansion points:
+\*   -1/2 ( quad0 - sum_i LBI_i(om*_i) + ln det Sigma0 + sum_i K_i(om+_i) + Dy ln 2 pi )
+\* quad0 and ln det Sigma0 come from the specification; the harness evaluates the ingredient FUNCTIONS of the code
+\* (verified by HetK / HetLBI for arbitrary expansion points) at the code's own points.
+AHetLBAssembly(i, j, s) ==
+    LET c == heap[i] p == heap[j] qY == Pick(PointMenu(HDy(c)), 1, s) IN
+    /\ c.cls \in {"HetExp", "HetCosh", "HetRelu"} /\ ~c.zw
+    /\ IsPdf(p) /\ NumD(p) = HDx(c) /\ NumR(p) = 1 /\ HDa(c) = HDy(c)
+    /\ Emit(heap, Step("HetLBAssembly", [i |-> i, j |-> j, y |-> qY], NoObj, 0, NoObj, 0, NoObj,
+                       [quad0 |-> HetBaseQuad(c, p, QV(qY[1])), lndet0 |-> HetBaseLnDet(c), dy |-> <<>>]))
+
 \* ------------------------------------------------------------------------
 \* Properties that are meaningful in every state of every instance
 \* ------------------------------------------------------------------------
